@@ -34,6 +34,7 @@ from vfw import refs
 from checks import _c18_repr as R
 from checks import _c18_place as P
 from checks import _c18_cont as CT
+from checks import _c18_hist as H
 
 PROPERTY = "C18"
 RULE = ("cells = {steady: form x solver x grid relation x observation map x model domain geometry x gradient hook; "
@@ -140,6 +141,10 @@ TD_SOLVERS = ["numpy", "scipy-kwargs", "cg-info", "gmres-tuple", "sparse-op"]
 # grid location / scale facet: relations between observation and solution grid that are crossed with every placement
 PLACE_RELS = ["equal", "equal-explicit", "subset", "offnode", "shifted", "shifted-fine"]
 PLACE_TIME_OBS = ["final", "all", "on-nodes", "off-nodes"]
+# time-grid position facet: where the time grid lies relative to t = 0 (None: the form's own initial time - exactly 0.0 for two of the
+# three forms, 2^-4 for 'ic-time'); 'cross0' is crossed with every interior index at which the grid holds exactly 0.0
+TIME_POS = ["cross0", "end0", "positive", "negative"]
+TIME_POS_FACET = {"cross0": "time=zero-inside", "end0": "time=ends-at-zero", "positive": "time=positive", "negative": "time=negative"}
 
 
 # ----------------------------------------------------------------------------------------
@@ -256,6 +261,21 @@ def cells(tier, seed):
                                 out.append({"kind": "timedep", "form": form, "N": 5, "tgrid": "nonuniform", "K": 3, "method": method,
                                             "time_obs": tobs, "grids": rel, "map": "none", "solver": "default",
                                             "place": list(place), "tplace": e_t, "cat": k})
+        # time-grid position facet: grids starting before 0 and holding exactly 0.0 at an interior level (every interior index), ending
+        # at exactly 0.0, strictly positive, strictly negative (starting at exactly 0.0: enumerated above) x uniform / non-uniform
+        for N in ((5,) if q else (5, 7)):
+            for form in TD_FORMS:
+                for tg in ("uniform", "nonuniform"):
+                    for K in ((2, 3, 4) if q else (2, 3, 4, 5, 6)):
+                        for tpos, m in [("cross0", j) for j in range(1, K)] + [(p, None) for p in TIME_POS[1:]]:
+                            for method in ("forward_euler", "backward_euler"):
+                                for tobs in PLACE_TIME_OBS:
+                                    for rel in ("equal", "offnode"):
+                                        out.append({"kind": "timedep", "form": form, "N": N, "tgrid": tg, "K": K, "method": method,
+                                                    "time_obs": tobs, "grids": rel, "map": "none", "solver": "default",
+                                                    "tpos": tpos, "tzero": m, "cat": k})
+        # process history facet: siblings of the same dimension built and used around the object under test (shipped and generic)
+        out += H.cells(q, k)
         # E1 add-on: grid / observation-time re-assignment histories on ONE live PDE object (non-initial states)
         for cls in ("steady", "timedep"):
             for form in ((STEADY_FORMS[:2] if q else STEADY_FORMS) if cls == "steady" else (TD_FORMS[:2] if q else TD_FORMS)):
@@ -545,6 +565,8 @@ class _Attribution:
                     c2.update({"reps": ["f64"] * len(reps), "solver": "default"} if reps is not None else {"prep": "f64"})
                 c2.pop("place", None)
                 c2.pop("tplace", None)
+                c2.pop("tpos", None)
+                c2.pop("tzero", None)
                 r2 = CellResult(c2)
                 try:
                     (_eval_timedep if c2["kind"] == "timedep" else _eval_steady)(c2, r2)
@@ -818,12 +840,30 @@ def _eval_steady(cell, res):
 # ----------------------------------------------------------------------------------------
 # time dependent
 # ----------------------------------------------------------------------------------------
-def _times(tg, K, t0):
+def _times(tg, K, t0, tpos=None, m=None):
+    """K steps starting at t0, or (time-grid position facet) placed relative to t = 0: 'cross0' - level m is exactly 0.0, 'end0' - the
+    last level is exactly 0.0, 'positive' / 'negative' - all levels on one side of 0 (first / last level at +-2^-5)"""
     if tg == "uniform":
         dts = [0.008] * K
     else:
         dts = [0.004, 0.010, 0.002, 0.008, 0.012, 0.006, 0.003][:K]
-    return t0 + np.concatenate([[0.0], np.cumsum(dts)])
+    c = np.concatenate([[0.0], np.cumsum(dts)])
+    if tpos is None:
+        return t0 + c
+    if tpos in ("cross0", "end0"):
+        m = K if tpos == "end0" else m
+        times = 0.008 * np.arange(-m, K + 1 - m) if tg == "uniform" else c - c[m]
+        assert times[m] == 0.0 and times[0] < 0.0 and np.all(np.diff(times) > 0)
+        return times
+    if tpos == "positive":
+        return 2.0 ** -5 + c
+    if tpos == "negative":
+        return (c - c[K]) - 2.0 ** -5
+    raise ValueError(tpos)
+
+
+def _tpos_facet(cell):
+    return TIME_POS_FACET.get(cell.get("tpos"), "")
 
 
 def _td_form(name, N, k, sparse=False):
@@ -905,7 +945,7 @@ def _eval_timedep(cell, res):
         if prep is not None:
             xs = [R.cast(R.small_int(x), prep) for x in xs]
             rfac = "" if prep == "f64" else ",param=%s" % prep
-    times = _times(cell["tgrid"], K, t0)
+    times = _times(cell["tgrid"], K, t0, cell.get("tpos"), cell.get("tzero"))
     T0 = P.time_origin(cell)
     if T0:                              # the same problem on the translated time axis t' = T0 + t
         form0, times = form, T0 + times
@@ -916,7 +956,7 @@ def _eval_timedep(cell, res):
     rtol_fwd = max(tol, 1e-9)
     spy = _Spy(fn) if fn is not None else None
     rec = R.Recorder(form, ("operator", "source", "initial_condition"))
-    sg = _Attribution(cell, rfac[1:], P.facet(cell))
+    sg = _Attribution(cell, rfac[1:], ",".join(f for f in (P.facet(cell), _tpos_facet(cell)) if f))
     mp = _map(cell["map"])
     gx = P.place_grid(g, cell)          # the grids handed to the library: the unit grid translated / scaled (location / scale facet)
     ptol = P.place_tol(gx, times)       # rounding of far-away coordinates relative to one cell / step (interpolated values only)
@@ -953,7 +993,7 @@ def _eval_timedep(cell, res):
     # (representation cells: the stale-state sequence x1,x2,x1 is the business of the float cells; two points suffice)
     for step, x in enumerate([xs[0], xs[1], xs[0]] if reps is None else [xs[0], xs[1]]):
         U_ref = _euler_ref(form, x, times, method)
-        res.state("%s:%s:x%d" % (cell["form"], method, step) + rfac)
+        res.state("%s:%s:x%d" % (cell["form"], method, step) + rfac + ("," + _tpos_facet(cell) if _tpos_facet(cell) else ""))
         if spy is not None:
             spy.calls.clear()
         res.transitions += K
@@ -1052,7 +1092,8 @@ def _eval_timedep(cell, res):
                          (np.round(np.asarray(obs, float), 8).tolist(), np.shape(obs), np.round(cands[0], 8).tolist(), np.shape(cands[0]),
                           "restriction at coinciding nodes/times" if exact else "no standard interpolant of the solution matches"),
                          obs=obs, ref=cands[0])
-            res.outcomes.add("obs:%s:%s:%s:%s" % (tfac, cell["grids"], cell["map"], "exact" if exact else "interp") + ("@" + P.facet(cell) if P.facet(cell) else ""))
+            res.outcomes.add("obs:%s:%s:%s:%s" % (tfac, cell["grids"], cell["map"], "exact" if exact else "interp") + ("@" + P.facet(cell) if P.facet(cell) else "")
+                             + ("@" + _tpos_facet(cell) if _tpos_facet(cell) else ""))
         # ---- PDEModel.forward -------------------------------------------------------------
         if model is not None:
             res.transitions += 1
@@ -1448,6 +1489,8 @@ def eval_cell(cell):
         _eval_reuse(cell, res)
     elif cell["kind"] == "container":
         CT.eval_container(cell, res)
+    elif cell["kind"] == "history":
+        H.eval_history(cell, res)
     else:
         raise ValueError(cell["kind"])
     return res
